@@ -93,6 +93,20 @@ class C01(flow.Spec):
             if rnd.random() < 0.5:
                 ops.append("S %d %d 0" % (c, b))
             out.append(("cluster 3 %d %s 6" % (len(ops), " ".join(ops)), {"cluster", "nodes=3", "chunked-broadcast", "relay-holds-tail-only"}))
+        # a node holds only the HEAD of a version; the tail it lacks is overwritten at the origin before it
+        # asks: the server answers the missing seq range with a chunk without changes, which completes the
+        # version at the receiver (what it buffered must be applied, not discarded)
+        O = 4 if tier == "quick" else 40
+        for _ in range(O):
+            a, b = rnd.sample([0, 1, 2], 2)
+            c = 3 - a - b
+            r1, r2 = rnd.sample(range(1, 9), 2)
+            ops = ["T %d 2 I %d %d I %d %d" % (a, r1, rnd.randrange(1, 9000), r2, rnd.randrange(1, 9000)), "B %d %d 4" % (a, c)]
+            if rnd.random() < 0.5:
+                ops += ["B %d %d 0" % (a, b), "T %d 1 I %d %d" % (a, r2, rnd.randrange(1, 9000)), "B %d %d 0" % (a, b), "S %d %d 0" % (c, b)]
+            else:
+                ops += ["T %d 1 I %d %d" % (a, r2, rnd.randrange(1, 9000)), "S %d %d 0" % (c, a)]
+            out.append(("cluster 3 %d %s 6" % (len(ops), " ".join(ops)), {"cluster", "nodes=3", "chunked-broadcast", "tail-overwritten-at-server"}))
         # the family the cluster theorem's no_tie hypothesis is about: two nodes delete the same row
         # before they hear of each other's delete, a third node is served each delete by the node
         # where it lost (sync mode 2: only relayed versions arrive)
